@@ -27,7 +27,8 @@
   large enough, and that results do not depend on `n`.
 
   Error enum: what Python would raise, by cause.  `invalidated` is not an exception: it marks the point where an
-  `EditCollection` would set `valid = False` (the model stops there; the theorems show it is unreachable).
+  `EditCollection` would set `valid = False` (the model stops there; the theorems show it is unreachable on the
+  domain `Tree.fkOK`; outside that domain it IS reached: finding D24, see NOTES_C04).
 
   Lean core only.
 -/
